@@ -143,5 +143,7 @@ def run(sc):
             sim.log({"ev": "ptx", "node": s["node"], "id": s["id"], "data": list(s["data"]), "fd": bool(s.get("fd", False))})
             sim.inject(n, s["id"], s["data"], fd=s.get("fd", False))
     sim.run(sc.get("dur", 2_000_000))
-    return {"cfg": cfg, "ev": sim.trace, "expect": sc.get("expect", {"all": False, "idle": False}),
-            "meta": {"scenario": sc}}, sim
+    sim.log({"ev": "end", "node": sc["nodes"][0]["name"]})
+    expect = {"all": False, "idle": False, "slack": 0}
+    expect.update(sc.get("expect", {}))
+    return {"cfg": cfg, "ev": sim.trace, "expect": expect, "meta": {"scenario": sc}}, sim
